@@ -100,9 +100,18 @@ def gen_case(rng, ltype, stream):
         idx = cfg["global_los_distribution"]
         cfg["los_distributions"][idx] = "GAUSSIAN"
         h["kwargs_los"][idx] = dict(mean=kap, sigma=0.0)
-    if ltype == "DSPL" and rng.random() < 0.5:
-        h["kwargs_lens"]["gamma_pl_list"] = [rng.uniform(1.8, 2.2) for _ in range(3)]
-        cfg["gamma_pl_index"] = rng.randrange(3)
+    if ltype == "DSPL":
+        # the three routes by which a double-source-plane lens gets its slope: its own entry of the slope list, the global
+        # slope as a delta function (the default distribution) or as a Gaussian of zero width; or none (isothermal)
+        route = rng.choice(["own", "own", "global_none", "global_none", "global_gauss", "none"])
+        if route == "own":
+            h["kwargs_lens"]["gamma_pl_list"] = [rng.uniform(1.8, 2.2) for _ in range(3)]
+            cfg["gamma_pl_index"] = rng.randrange(3)
+        elif route.startswith("global"):
+            cfg["gamma_pl_global_sampling"] = True
+            cfg["gamma_pl_global_dist"] = "NONE" if route == "global_none" else "GAUSSIAN"
+            h["kwargs_lens"]["gamma_pl_mean"] = rng.choice([rng.uniform(1.7, 2.3), 1.8, 2.15])
+            h["kwargs_lens"]["gamma_pl_sigma"] = 0.0 if route == "global_gauss" else rng.choice([0.0, 0.1])
     ddt, dd = rng.uniform(3000, 7000), rng.uniform(800, 1500)
     dlum = rng.uniform(-3, 3) if ltype in lc.MAG_TYPES else 0.0
     beta = rng.uniform(0.5, 0.9) if ltype == "DSPL" else None
@@ -179,6 +188,8 @@ def oracle(case, out, rec, lens):
     gpl = 2
     if cfg.get("gamma_pl_index") is not None:
         gpl = h["kwargs_lens"]["gamma_pl_list"][cfg["gamma_pl_index"]]
+    elif cfg.get("gamma_pl_global_sampling") is True:
+        gpl = h["kwargs_lens"]["gamma_pl_mean"]
     want = direct_data(lens, lt, case["ddt"] * lt_tot, case["dd"] * (1 + gam) / 2, ks, sv,
                        mu + case["dlum"] + 5 * math.log10(lt_tot), case["beta"], gpl, lam)
     want = float(np.squeeze(want))
